@@ -399,6 +399,8 @@ class Runner:
         cwd = case.get('cwd')
         if cwd:
             cwd = cwd.replace('@SNAP@', self.ctx.snapshot)
+        else:
+            cwd = d     # -MD / -MMD / default output names write into the working directory: keep that inside the scratch area
         if sanitized:
             st, err, rss = run_proc(c, ASAN_TIMEOUT, env=self.env_asan(), cwd=cwd)
         else:
